@@ -219,3 +219,20 @@ def parse_json(ex, chars):
     """returns ('ok', Variable Agg) or ('err', message) -- the value the JSON text denotes (reference side)"""
     k, v = parse_tree(ex, chars)
     return (k, build(v)) if k == 'ok' else (k, v)
+
+
+def decimal_value(ex, chars, width=64):
+    """the number a run of (symbolic) decimal digits denotes, as ONE shared z3 term per digit run and path: the lexer model and the reference
+    lexer both use it, so that "same digits => same value" is syntactic and no multiplier-equivalence query reaches the solver"""
+    cache = ex.__dict__.setdefault('u_decimal', {})
+    key = (tuple(c if isinstance(c, str) else c.bv.get_id() for c in chars), width)
+    if key not in cache:
+        acc = z3.BitVecVal(0, width)
+        for c in chars:
+            d = z3.BitVecVal(ord(c) - 48, width) if isinstance(c, str) else z3.ZeroExt(width - 32, c.bv) - 48
+            acc = acc * 10 + d
+        cache[key] = z3.simplify(acc)
+        # lemma (true because every character of the run is a decimal digit on this path): the value of n digits is below 10^n.
+        # Without it the solver has to derive the bound through the multiplier chain, which can take minutes.
+        if len(chars) * 4 < width: ex.assume(z3.ULE(cache[key], z3.BitVecVal(10 ** len(chars) - 1, width)))
+    return cache[key]
